@@ -20,7 +20,7 @@ STD = [("ãã‚‹ã¾", "è»Š", "ä¸€èˆ¬åè©"), ("ãã‚‹", "æ¥", "ã‚«è¡Œå¤‰"), ("ã
        ("ã—ã‚“ã‹", "é€²åŒ–", "ã‚µå¤‰åè©"), ("ã‚„ã¾", "å±±", "ä¸€èˆ¬åè©"), ("ã‚„ã¾ã ", "å±±ç”°", "å›ºæœ‰åè©"), ("ãŸã‹", "é«˜", "å½¢å®¹è©"),
        ("ã»ã‚“", "æœ¬", "ä¸€èˆ¬åè©"), ("ã", "æœ¨", "ä¸€èˆ¬åè©"), ("ã“ãƒ¼ã²ãƒ¼", "çˆç²", "ä¸€èˆ¬åè©"), ("ã•ã‘", "é…’", "ä¸€èˆ¬åè©"), ("ã•ã‘", "é®­", "ä¸€èˆ¬åè©")]
 ANC = [("ã¾ã§", "ã¾ã§", "å‰¯åŠ©è©"), ("ã§", "ã§", "æ ¼åŠ©è©"), ("ã¯", "ã¯", "å‰¯åŠ©è©"), ("ã—ã‚“", "æ–°", "æ¥é ­è¾"), ("ã‹", "åŒ–", "æ¥å°¾è¾"),
-       ("ãŠ", "å¾¡", "æ¥é ­è¾"), ("ã»ã‚“", "æœ¬", "åŠ©æ•°è©"), ("ãªã„", "ãªã„", "åŠ©å‹•è©")]
+       ("ãŠ", "å¾¡", "æ¥é ­è¾"), ("ã»ã‚“", "æœ¬", "åŠ©æ•°è©"), ("ãªã„", "ãªã„", "åŠ©å‹•è©"), ("ã¦ã", "çš„", "æ¥å°¾è¾")]
 TANKAN = [("ã", "æœ¨", "ä¸€èˆ¬åè©"), ("ã", "æ°—", "ä¸€èˆ¬åè©"), ("ã‚„ã¾", "å±±", "ä¸€èˆ¬åè©")]
 
 
@@ -264,7 +264,9 @@ class HistoryRunner:
         sid = raw_sid if sess_index is None else self.sids[sess_index]
         res = self._timed("confirm", lambda: self.srv.rpc("UpdateFrequency", {"session_id": sid, "candidate_id": cid}))
         self.ops.append(("confirm", sess_index, cid, now))
-        self.model_lines.append("sconfirm %s %s %d" % ("x" if sess_index is None else sess_index, cid if cid.isdigit() and len(cid) < 9 and (cid == "0" or not cid.startswith("0")) else "x", now))
+        base = getattr(self, "sids_before_restart", 0)      # the model numbers sessions from 0 again after a restart
+        msid = "x" if sess_index is None or sess_index < base else sess_index - base
+        self.model_lines.append("sconfirm %s %s %d" % (msid, cid if cid.isdigit() and len(cid) < 9 and (cid == "0" or not cid.startswith("0")) else "x", now))
         self.real.append("ok" if res[0] == "ok" else res[0])
         self.model_lines.append("sapplyall")
         self.real.append("ok")
